@@ -126,7 +126,13 @@ func (x *Exec) callCommon(fr *Frame, st *State, ins ssa.Instruction, cc *ssa.Cal
 		x.closureCall(fr, st, ins, cc, c, res)
 		return
 	}
-	x.safety(fr, "nilfunc", cc.Value.Name(), st, not(eq(fv, intLit(0))), pos)
+	if g := loadedGlobal(cc.Value); g != nil && g.Pkg != nil && x.eng.Targets[g.Pkg.Pkg.Path()] == nil {
+		// a function-typed package variable of a dependency (fmts.YAMLToJSON ...): set by that
+		// package's initialiser; taken to be non-nil
+		x.note("function variable %s of a dependency is assumed non-nil", g.String())
+	} else {
+		x.safety(fr, "nilfunc", cc.Value.Name(), st, not(eq(fv, intLit(0))), pos)
+	}
 	sig := cc.Signature()
 	dynArgs := x.args(fr, st, cc)
 	x.havocCall(fr, st, ins, "dynamic call through "+cc.Value.Name(), sig, dynArgs, cc.Args, res)
